@@ -32,7 +32,11 @@ func evProject(t *Tracer, r Rng, code int, known bool, pts []*object.Point) {
 		desc[i] = hexTriple(p.Lon(), p.Lat(), p.Alt())
 	}
 	e.Real = map[string]any{"pts": desc}
+	before := pointBits(pts)
 	o, res := guard(func() (any, error) { return shape.ConvertPointListToProjectedPointList(pts, code) })
+	if pointBits(pts) != before {
+		e.Bad = pointsModified
+	}
 	e.O = o
 	empty := map[string]any{"n": 0, "alt": true, "devx": []int64{}, "devy": []int64{}, "bn": 0, "balt": true, "dlon": []int64{}, "dlat": []int64{}, "backok": true}
 	e.R = empty
